@@ -240,17 +240,20 @@ fn section(name: &str, metas: Vec<MetaType>) {
 /// a registry assembled at run time: values that differ ONLY in documentation are different values
 fn builder_section() {
     use scale_info::{form::PortableForm, Field, Path, PortableRegistryBuilder, Type, TypeDefComposite, TypeDefPrimitive, TypeDefVariant, Variant};
-    let s = |x: &str| x.to_string();
-    let path = |x: &str| Path::<PortableForm>::from_segments_unchecked([s(x)]);
+    // the portable string type is String with std / decode and &'static str without: written once for both
+    fn s(x: &'static str) -> <PortableForm as scale_info::form::Form>::String {
+        x.into()
+    }
+    let path = |x: &'static str| Path::<PortableForm>::from_segments_unchecked([s(x)]);
     let mut b = PortableRegistryBuilder::new();
     let mut ids = vec![];
     ids.push(b.register_type(Type::new(path("P"), vec![], TypeDefPrimitive::U8, vec![])));
     ids.push(b.register_type(Type::new(path("P"), vec![], TypeDefPrimitive::U8, vec![s("doc")])));
     ids.push(b.register_type(Type::new(path("P"), vec![], TypeDefPrimitive::U8, vec![s("other doc")])));
-    let f = |d: Vec<String>| Field::<PortableForm>::new(Some(s("f")), 0u32.into(), Some(s("u8")), d);
+    let f = |d: Vec<<PortableForm as scale_info::form::Form>::String>| Field::<PortableForm>::new(Some(s("f")), 0u32.into(), Some(s("u8")), d);
     ids.push(b.register_type(Type::new(path("S"), vec![], TypeDefComposite::new(vec![f(vec![])]), vec![])));
     ids.push(b.register_type(Type::new(path("S"), vec![], TypeDefComposite::new(vec![f(vec![s("field doc")])]), vec![])));
-    let v = |d: Vec<String>| Variant::<PortableForm>::new(s("V"), vec![], 0, d);
+    let v = |d: Vec<<PortableForm as scale_info::form::Form>::String>| Variant::<PortableForm>::new(s("V"), vec![], 0, d);
     ids.push(b.register_type(Type::new(path("E"), vec![], TypeDefVariant::new(vec![v(vec![])]), vec![])));
     ids.push(b.register_type(Type::new(path("E"), vec![], TypeDefVariant::new(vec![v(vec![s("variant doc")])]), vec![])));
     ids.push(b.register_type(Type::new(path("Last"), vec![], TypeDefPrimitive::Bool, vec![])));
@@ -331,9 +334,11 @@ def run(pid, tier):
         print(list(crashed.items())[:1])
         print('MACHINERY-FAILURE: the fingerprint program dies in every feature set (nothing to compare)')
         return 2
-    if not results or len(notbuilt) * 2 > len(sets):
+    if notbuilt:
+        # every feature set builds on the unchanged tree; a set that does not build cannot be compared, and silently leaving it
+        # out would drop exactly the configurations (no_std, borrowed strings) the property is about
         print(list(notbuilt.items())[:1])
-        print('MACHINERY-FAILURE: %d of %d feature sets do not build' % (len(notbuilt), len(sets)))
+        print('MACHINERY-FAILURE: %d of %d feature sets do not build: %s' % (len(notbuilt), len(sets), sorted(notbuilt)))
         return 2
     violations = []
     for name, err in sorted(crashed.items()):
